@@ -121,6 +121,22 @@ static void width() {
       sgn = (k & 1) != 0;
       store<Orderer>(base);
       { BB bb{BufT(g_buf, NB)}; one<ep::UIntView<P, OBB>>("U", ord, W, o, bb.template GetOffsetStorage<1, 0>(o, W), sv, uv, sgn); }
+      if (o > 0 && (k % 2) == 0) {
+        // the same field reached through a nested bit block (a `bits` inside a `bits`, an array element inside a
+        // `bits`): outer block at bit o1 of the container, the field at bit o2 of the outer block, o1 + o2 == o;
+        // the outer block ends exactly at the field's end, a little past it, or at the container's end
+        int o1 = (k % 4 == 0) ? o : (o + 1) / 2, o2 = o - o1;
+        int room = C - o1, w1 = o2 + W + ((k % 3) < (room - o2 - W) ? (k % 3) : 0);
+        if (k % 5 == 4) w1 = room;
+        store<Orderer>(base);
+        BB bb{BufT(g_buf, NB)};
+        OBB outer = bb.template GetOffsetStorage<1, 0>(o1, w1);
+        one<ep::UIntView<P, OBB>>("U", ord, W, o, outer.template GetOffsetStorage<1, 0>(o2, W), sv, uv, sgn);
+        store<Orderer>(base);
+        BB bb2{BufT(g_buf, NB)};
+        OBB outer2 = bb2.template GetOffsetStorage<1, 0>(o1, w1);
+        one<ep::IntView<P, OBB>>("I", ord, W, o, outer2.template GetOffsetStorage<1, 0>(o2, W), sv, uv, !sgn);
+      }
       store<Orderer>(base);
       { BB bb{BufT(g_buf, NB)}; one<ep::IntView<P, OBB>>("I", ord, W, o, bb.template GetOffsetStorage<1, 0>(o, W), sv, uv, !sgn); }
       store<Orderer>(base);
